@@ -37,7 +37,7 @@ def control_twice(ck, tier, binary=None):
     """Adds the control-planner half of C20 to the check `ck` (violations, coverage, samples)."""
     binary = binary or build_harness("control", needs_lib=True)
     rng = random.Random(vlib.seed() * 2654435761 + 29)
-    nper = 1 if tier == "quick" else 6     # jobs per planner x system
+    nper = 2 if tier == "quick" else 6     # jobs per planner x system
     jobs = []
     for planner in PLANNERS:
         for system, steps in SYSTEMS.items():
